@@ -427,6 +427,8 @@ def c20(tier):
     for shape in ("ATnRL", "ATn?RL", "RATnL", "ARTnL", "ATRnL", "ATn=aRL", "AgRL"):
         jobs.append(shape_job("C20", shape, required_witness=["end-of-scenario", "a-result-code"]))
     # newline style of a multi-line answer: the command list after AT+A<LF> and AT+A<CR><LF>
+    # the length a variable write callback is told does not depend on earlier lines (step level: any pre-state, numeric variables, any access mode)
+    jobs += [j for j in step_jobs("C20", tier, pairs=[(9, 0)]) if j.defines.get("VSEL") in (0, 1, 2, 5)]
     jl = list_job("C20", 20, 22, "m2.cap10to11")
     jl.required_witness = ["end-of-scenario", "five-lines-listed"]
     jobs.append(jl)
@@ -438,7 +440,8 @@ def c12(tier):
     if tier == "quick":
         jobs += [twin_job("C12", 1, sh, r=1) for sh in ("ATnL", "gxL", "ATnRnL")]   # gxL: a malformed line (ERROR state) with a possible CR before the LF
     else:
-        jobs += [twin_job("C12", 1, sh, r=2) for sh in ("ATnL", "ATn?L", "ATn=aL", "gxL")]
+        # (two refusals of each kind per run were tried: the hint refinement does not converge within the budget - one of each kind plus the byte-boundary refusal)
+        jobs += [twin_job("C12", 1, sh, r=1) for sh in ("ATnL", "gxL", "ATnRnL", "ATn?L", "ATn=aL")]
     return with_prop("C12", jobs)
 
 
@@ -496,7 +499,7 @@ def events_jobs(prop, tier):
     n = 96
     t0s = (0, 15, 27, 39)
     codes = ((0, "dataok"),)
-    for rc in (1, 2):
+    for rc in (1,):   # capacity 2 (two events queued behind a command line) runs out of memory: not registered
         for t0 in t0s:
             for code, cname in codes:
                 d = {"N": n, "T0": t0, "RINGCAP": rc, "CAT_UNSOLICITED_CMD_BUFFER_SIZE": rc, "EVENT_CODE": "(%d)" % code, "CAPB_MIN": 12, "CAPB_MAX": 16}
@@ -591,6 +594,8 @@ def hold_job(kind, t0):
 def c14(tier):
     pairs = [(17, u) for u in USTATES] + [(13, 0), (14, 0), (15, 0), (16, 0), (0, 3), (0, 4)]
     jobs = step_jobs("C14", tier, pairs=pairs)
+    # the same with a separate event buffer of any (also too small) size: an event that cannot be formatted must not answer for the held command
+    jobs += step_jobs("C14", tier, pairs=[(17, u) for u in USTATES], seps=(1,))
     jobs += api_jobs("C14", (6,), 0, 0, (1,))
     # line-level, black box: all four handler kinds entering hold, release window right after the hold begins (quick)
     # and later windows (thorough); spurious / repeated releases, second line waiting
